@@ -1,4 +1,5 @@
 import Driver.State
+import Model.Direct
 open BFS
 namespace Driver
 
@@ -6,6 +7,39 @@ structure DState where
   fs : MFS := emptyFS 0
 
 def mkMeta (mode uid gid : Nat) (t : Time) : Meta := { mode := mode, uid := uid, gid := gid, mtime := t }
+
+/-- the history operation a plain call stands for (what `Op.direct` executes); handle-returning
+and three-argument calls the histories do not use keep their own path below -/
+def opOfCall : Call → Option Op
+  | .mkdir n p => some (.mkdir n p)
+  | .mkdirAll n p => some (.mkdirAll n p)
+  | .remove n => some (.remove n)
+  | .removeAll n => some (.removeAll n)
+  | .rename o n => some (.rename o n)
+  | .symlink o n => some (.symlink o n)
+  | .chmod n m => some (.chmod n m)
+  | .chown n u g => some (.chown n u g)
+  | .lchown n u g => some (.lchown n u g)
+  | .chtimes n a t => if a = t then some (.chtimes n t) else none
+  | .stat n => some (.stat n)
+  | .lstat n => some (.lstat n)
+  | .readlink n => some (.readlink n)
+  | _ => none
+
+/-- canonical rendering of `Op.direct`'s result (same lines as the composite commands always printed) -/
+def showDirect : Except Err DOut → List (List Char)
+  | .error e => [s2l "err", s2l (errName e)]
+  | .ok .unit => [s2l "ok"]
+  | .ok (.written h .ok) => [s2l "ok", h.name]
+  | .ok (.written _ (.errWrite e)) => [s2l "err-write", s2l (errName e)]
+  | .ok (.written _ (.errClose e)) => [s2l "err-close", s2l (errName e)]
+  | .ok (.info i) => s2l "ok" :: s2l "info" :: showInfo i
+  | .ok (.str t) => [s2l "ok", s2l "str", t]
+
+/-- run one history operation directly on the layered filesystem `stack` (C03's reference side) -/
+def runDirect (st : DState) (stack : List Char) (op : Op) : DState × List (List Char) :=
+  let r := Op.direct (buildFS (parseStack stack)) st.fs op
+  ({ st with fs := r.1 }, showDirect r.2)
 
 /-- stateful commands on the OS model; returns the new state and the output fields -/
 def osCmd (st : DState) : List (List Char) → Option (DState × List (List Char))
@@ -26,34 +60,19 @@ def osCmd (st : DState) : List (List Char) → Option (DState × List (List Char
         pure ({ st with fs := st.fs.set k (some node) }, [s2l "ok"])
     | "os.call", stack :: rest => do
         let call ← parseCall rest
-        let fs := buildFS (parseStack stack)
-        let (m', r) := fs.call st.fs call
-        pure ({ st with fs := m' }, showRet r)
+        match opOfCall call with
+        | some op => pure (runDirect st stack op)      -- through `Op.direct` (Model/Direct.lean)
+        | none =>
+          let fs := buildFS (parseStack stack)
+          let (m', r) := fs.call st.fs call
+          pure ({ st with fs := m' }, showRet r)
     | "os.write", [stack, p, flag, perm, data] => do
-        -- OpenFile + Write(data) + Close as one composite
+        -- OpenFile + Write(data) + Close as one composite: `Op.direct` of the history operation
         let flag ← natOf flag; let perm ← natOf perm
-        let fs := buildFS (parseStack stack)
-        match fs.call st.fs (.openFile p flag perm) with
-        | (m1, .error e) => pure ({ st with fs := m1 }, [s2l "err", s2l (errName e)])
-        | (m1, .ok (.handle h)) =>
-          if data = [] then pure ({ st with fs := m1 }, [s2l "ok", h.name])
-          else
-            (match fs.hwrite m1 h 0 (String.ofList data) with
-             | (m2, .error e) => pure ({ st with fs := m2 }, [s2l "err-write", s2l (errName e)])
-             | (m2, .ok ()) => pure ({ st with fs := m2 }, [s2l "ok", h.name]))
-        | (m1, .ok _) => pure ({ st with fs := m1 }, [s2l "err", s2l "other"])
-    | "os.creat", [stack, p, data] => do
+        pure (runDirect st stack (.write p flag perm (String.ofList data)))
+    | "os.creat", [stack, p, data] =>
         -- Create + Write(data) + Close as one composite
-        let fs := buildFS (parseStack stack)
-        match fs.call st.fs (.create p) with
-        | (m1, .error e) => pure ({ st with fs := m1 }, [s2l "err", s2l (errName e)])
-        | (m1, .ok (.handle h)) =>
-          if data = [] then pure ({ st with fs := m1 }, [s2l "ok", h.name])
-          else
-            (match fs.hwrite m1 h 0 (String.ofList data) with
-             | (m2, .error e) => pure ({ st with fs := m2 }, [s2l "err-write", s2l (errName e)])
-             | (m2, .ok ()) => pure ({ st with fs := m2 }, [s2l "ok", h.name]))
-        | (m1, .ok _) => pure ({ st with fs := m1 }, [s2l "err", s2l "other"])
+        some (runDirect st stack (.creat p (String.ofList data)))
     | "os.read", [stack, p] => do
         -- Open + ReadAll (file) or Readdirnames(-1) sorted (directory) + Close
         let fs := buildFS (parseStack stack)
